@@ -454,7 +454,7 @@ func (qs Qsolexa) Encode(e Encoding) (q byte) {
 		}
 	case Solexa:
 		q = byte(qs)
-		if q <= 62 {
+		if qs <= 62 {
 			q += 64
 		}
 	case None:
